@@ -322,6 +322,124 @@ func (e *Engine) computeVolatile() {
 		}
 		writtenFree[f] = w
 	}
+	// writes done by a nested closure through a variable its parent captured count for the parent
+	for changed := true; changed; {
+		changed = false
+		for _, f := range fns {
+			for _, b := range f.Blocks {
+				for _, ins := range b.Instrs {
+					mc, ok := ins.(*ssa.MakeClosure)
+					if !ok {
+						continue
+					}
+					cf := mc.Fn.(*ssa.Function)
+					for i, bnd := range mc.Bindings {
+						fv, isFV := bnd.(*ssa.FreeVar)
+						if !isFV || !writtenFree[cf][i] {
+							continue
+						}
+						for k, pfv := range f.FreeVars {
+							if pfv == fv && !writtenFree[f][k] {
+								if writtenFree[f] == nil {
+									writtenFree[f] = map[int]bool{}
+								}
+								writtenFree[f][k] = true
+								changed = true
+							}
+						}
+					}
+				}
+			}
+		}
+	}
+	// escapes[f][i]: the function-typed parameter i of f is used for anything but calling it
+	// (or handing it to an in-package function that only calls it): then a closure passed there
+	// may run later or on another goroutine
+	escapes := map[*ssa.Function]map[int]bool{}
+	for changed := true; changed; {
+		changed = false
+		for _, f := range fns {
+			for i, prm := range f.Params {
+				if escapes[f][i] {
+					continue
+				}
+				if _, isFn := prm.Type().Underlying().(*types.Signature); !isFn {
+					continue
+				}
+				esc := false
+				refs := prm.Referrers()
+				if refs == nil {
+					continue
+				}
+				for _, ref := range *refs {
+					ci, isCall := ref.(ssa.CallInstruction)
+					if !isCall {
+						esc = true
+						break
+					}
+					if _, isGo := ref.(*ssa.Go); isGo {
+						esc = true
+						break
+					}
+					cc := ci.Common()
+					if cc.Value == prm {
+						continue // called directly (also deferred: same goroutine, before f returns)
+					}
+					g := cc.StaticCallee()
+					for ai, a := range cc.Args {
+						if a == prm && (g == nil || cc.IsInvoke() || len(g.Blocks) == 0 || escapes[g][ai]) {
+							esc = true
+						}
+					}
+				}
+				if esc {
+					if escapes[f] == nil {
+						escapes[f] = map[int]bool{}
+					}
+					escapes[f][i] = true
+					changed = true
+				}
+			}
+		}
+	}
+	// a closure is synchronous when every use of the closure value is a direct call, a defer,
+	// or an argument of an in-package function that only calls it
+	synchronous := func(mc *ssa.MakeClosure) bool {
+		if cf, ok := mc.Fn.(*ssa.Function); ok && strings.Contains(cf.Synthetic, "range-over-func") {
+			return true // the body of a range-over-func loop: the iterator calls it in place
+		}
+		refs := mc.Referrers()
+		if refs == nil {
+			return false
+		}
+		for _, ref := range *refs {
+			if _, isGo := ref.(*ssa.Go); isGo {
+				return false
+			}
+			ci, isCall := ref.(ssa.CallInstruction)
+			if !isCall {
+				return false
+			}
+			cc := ci.Common()
+			if cc.Value == mc {
+				continue
+			}
+			g := cc.StaticCallee()
+			found := false
+			for ai, a := range cc.Args {
+				if a == mc {
+					found = true
+					if g == nil || cc.IsInvoke() || len(g.Blocks) == 0 || escapes[g][ai] {
+						return false
+					}
+				}
+			}
+			if !found {
+				return false
+			}
+		}
+		return true
+	}
 	for _, f := range fns {
 		for _, b := range f.Blocks {
 			for _, ins := range b.Instrs {
@@ -330,6 +448,9 @@ func (e *Engine) computeVolatile() {
 					continue
 				}
 				cf := mc.Fn.(*ssa.Function)
+				if synchronous(mc) {
+					continue // runs in place: its writes are ordinary sequential writes
+				}
 				for i, bnd := range mc.Bindings {
 					if writtenFree[cf][i] {
 						if al, ok := bnd.(*ssa.Alloc); ok {
@@ -623,6 +744,16 @@ func (s *State) FrameFn(fromTop int) *ssa.Function {
 		return nil
 	}
 	return s.frames[i].fn
+}
+
+// FrameBlock returns the block the frame fromTop levels below the top is executing
+// (for a caller frame: the block of the call site).
+func (s *State) FrameBlock(fromTop int) *ssa.BasicBlock {
+	i := len(s.frames) - 1 - fromTop
+	if i < 0 {
+		return nil
+	}
+	return s.frames[i].block
 }
 
 // Depth is the number of frames.
